@@ -106,6 +106,24 @@ theorem render_sound_model {α : Type} (A : Alg α) (env : Nat → α) (c : Ctx)
   obtain ⟨t', g, ev⟩ := render_sound A env e
   exact ⟨renderTok e, t', render_emb c hc ρ ok e, g, ev⟩
 
+/-- **comparison level.**  A comparison of two arithmetic trees is rendered as the two operand renderings around the
+    operator, with no parentheses of its own: each side derives (at the loosest arithmetic level) a tree of equal value,
+    so the comparison takes whole arithmetic expressions as operands and never chains. -/
+theorem render_cmp (c : Ctx) (hc : c.withAlias = false) (q : Option Char) (hq : c.quote = .given q) (ρ : Nat → Term)
+    (ok : AtomOK c ρ) (cmp : Str) (e1 e2 : Tree) :
+    render c (.basic cmp (emb ρ e1) (emb ρ e2) none) = docOf c ρ (renderTok e1) ++ .kw cmp :: docOf c ρ (renderTok e2) := by
+  have e : ({ c with quote := .given c.basicQ, withAlias := false } : Ctx) = c := by
+    cases c; simp_all [Ctx.basicQ]
+  simp only [render_basic, e, aliasDoc, opt]
+  rw [render_emb c hc ρ ok e1, render_emb c hc ρ ok e2]
+  simp
+
+theorem cmp_operands_sound {α : Type} (A : Alg α) (env : Nat → α) (e1 e2 : Tree) :
+    ∃ t1 t2, G 0 (renderTok e1) t1 ∧ G 0 (renderTok e2) t2 ∧ eval A env t1 = eval A env e1 ∧ eval A env t2 = eval A env e2 := by
+  obtain ⟨t1, g1, v1⟩ := render_sound A env e1
+  obtain ⟨t2, g2, v2⟩ := render_sound A env e2
+  exact ⟨t1, t2, G.to g1 (Nat.zero_le _) (lvlOf_le e1), G.to g2 (Nat.zero_le _) (lvlOf_le e2), v1, v2⟩
+
 /-- non-vacuity: fields and a function call are atoms in the `str()` context -/
 def rho0 : Nat → Term
   | 0 => .field "a".toList none none
